@@ -107,26 +107,38 @@ sysFSCREATE     == 256
 sysFSDELETE     == 512
 sysFSDELETESELF == 1024
 sysFSMODIFY     == 2
-sysFSMOVE       == 192
 sysFSMOVEDFROM  == 64
 sysFSMOVEDTO    == 128
 sysFSMOVESELF   == 2048
 sysFSIGNORED    == 32768
-sysFSALLEVENTS  == 4038
-\* newEvent(name, mask) of the Windows backend, over the internal sysFS* mask
+sysFSALLEVENTS  == 4095
+FILE_NOTIFY_CHANGE_FILE_NAME  == 1
+FILE_NOTIFY_CHANGE_DIR_NAME   == 2
+FILE_NOTIFY_CHANGE_LAST_WRITE == 16
+\* newEvent(name, mask) of the Windows backend, over the internal sysFS* mask: creation and move-in to
+\* Create, deletion to Remove, modification to Write, move-out and move-of-self to Rename, never Chmod
 WindowsOpOf(m) ==
     (IF HasBit(m, sysFSCREATE) \/ HasBit(m, sysFSMOVEDTO) THEN OpCreate ELSE 0)
   + (IF HasBit(m, sysFSDELETE) \/ HasBit(m, sysFSDELETESELF) THEN OpRemove ELSE 0)
   + (IF HasBit(m, sysFSMODIFY) THEN OpWrite ELSE 0)
-  + (IF HasBit(m, sysFSMOVEDFROM) \/ HasBit(m, sysFSMOVEDTO) \/ HasBit(m, sysFSMOVESELF) THEN OpRename ELSE 0)
-\* action code -> internal mask
+  + (IF HasBit(m, sysFSMOVEDFROM) \/ HasBit(m, sysFSMOVESELF) THEN OpRename ELSE 0)
+\* FILE_ACTION_* code -> internal mask
 WindowsActionMask(a) ==
     CASE a = FILE_ACTION_ADDED -> sysFSCREATE
-      [] a = FILE_ACTION_REMOVED -> sysFSDELETESELF
+      [] a = FILE_ACTION_REMOVED -> sysFSDELETE
       [] a = FILE_ACTION_MODIFIED -> sysFSMODIFY
       [] a = FILE_ACTION_RENAMED_OLD_NAME -> sysFSMOVEDFROM
       [] a = FILE_ACTION_RENAMED_NEW_NAME -> sysFSMOVEDTO
       [] OTHER -> 0
+\* the ReadDirectoryChangesW notify filter subscribed to for an internal mask
+WindowsNotifyFilter(m) ==
+    (IF HasBit(m, sysFSMODIFY) THEN FILE_NOTIFY_CHANGE_LAST_WRITE ELSE 0)
+  + (IF HasBit(m, sysFSMOVEDFROM) \/ HasBit(m, sysFSMOVEDTO) \/ HasBit(m, sysFSCREATE) \/ HasBit(m, sysFSDELETE)
+     THEN FILE_NOTIFY_CHANGE_FILE_NAME + FILE_NOTIFY_CHANGE_DIR_NAME ELSE 0)
+
+\* which requested operation sets a backend accepts
+Unportable == XOpen + XRead + XCloseWrite + XCloseRead
+Supports(backend, ops) == IF backend = "inotify" THEN TRUE ELSE AndBits(ops % 512, Unportable) = 0
 
 \* ---- renderings -----------------------------------------------------------
 OpNames == << <<OpCreate, "CREATE">>, <<OpRemove, "REMOVE">>, <<OpWrite, "WRITE">>, <<XOpen, "OPEN">>, <<XRead, "READ">>,
@@ -139,4 +151,12 @@ OpStringFrom(o, i) ==
             THEN OpNames[i][2] \o (IF rest = "" THEN "" ELSE "|" \o rest)
             ELSE rest
 OpString(o) == LET s == OpStringFrom(o, 1) IN IF s = "" THEN "[no events]" ELSE s
+
+RECURSIVE Spaces(_)
+Spaces(n) == IF n <= 0 THEN "" ELSE " " \o Spaces(n - 1)
+\* fmt "%-13s"
+Pad13(s) == s \o Spaces(13 - Len(s))
+\* Event.String: q(.) is strconv.Quote, uninterpreted here (the driver logs the quoted names)
+EventString(op, qname, qfrom, sep) ==
+    Pad13(OpString(op)) \o " " \o qname \o (IF qfrom = "" THEN "" ELSE sep \o qfrom)
 =============================================================================
